@@ -815,10 +815,16 @@ _VERIF_DIR = __import__("os").path.dirname(__import__("os").path.dirname(__impor
 _OUT_OF_SYNC = (AttributeError, KeyError, TypeError, NameError, IndexError, ImportError)
 
 
+class HarnessOutOfSync(Exception):
+    """raised by a harness that finds its wiring into the code under test did not take effect (an internal name changed)"""
+
+
 def harness_out_of_sync(e):
     """an exception of the 'name / shape not as expected' kind whose innermost frame is the harness's own code (checks/, sx/, ref/), not the
     code under test: the harness could not drive this tree (e.g. an internal attribute it reaches into was renamed).  That is a harness
     error, never a finding.  Exceptions the doubles raise on purpose (RuntimeError, ValueError, ...) are not of this kind."""
+    if isinstance(e, HarnessOutOfSync):
+        return True
     if not isinstance(e, _OUT_OF_SYNC):
         return False
     tb = e.__traceback__
